@@ -19,11 +19,16 @@ Norm(n, d) == IF d = 0 THEN MV
 R(n) == <<n, 1>>
 Q(n, d) == Norm(n, d)
 
-RAdd(a, b) == IF IsMV(a) \/ IsMV(b) THEN MV ELSE Norm(a[1] * b[2] + b[1] * a[2], a[2] * b[2])
+\* (denominators are brought to their least common multiple and factors are cancelled before multiplying, to stay within TLC's 32-bit integers)
+RAdd(a, b) == IF IsMV(a) \/ IsMV(b) THEN MV
+              ELSE LET g == GCD(a[2], b[2]) IN Norm(a[1] * (b[2] \div g) + b[1] * (a[2] \div g), (a[2] \div g) * b[2])
 RNeg(a) == IF IsMV(a) THEN MV ELSE <<-a[1], a[2]>>
 RSub(a, b) == RAdd(a, RNeg(b))
-RMul(a, b) == IF IsMV(a) \/ IsMV(b) THEN MV ELSE Norm(a[1] * b[1], a[2] * b[2])
-RDiv(a, b) == IF IsMV(a) \/ IsMV(b) \/ b[1] = 0 THEN MV ELSE Norm(a[1] * b[2], a[2] * b[1])
+RMul(a, b) == IF IsMV(a) \/ IsMV(b) THEN MV
+              ELSE IF a[1] = 0 \/ b[1] = 0 THEN <<0, 1>>
+              ELSE LET g1 == GCD(Abs(a[1]), b[2]) g2 == GCD(Abs(b[1]), a[2]) IN
+                   Norm((a[1] \div g1) * (b[1] \div g2), (a[2] \div g2) * (b[2] \div g1))
+RDiv(a, b) == IF IsMV(a) \/ IsMV(b) \/ b[1] = 0 THEN MV ELSE RMul(a, IF b[1] < 0 THEN <<-b[2], -b[1]>> ELSE <<b[2], b[1]>>)
 \* comparisons are only applied to non-missing values
 RLt(a, b) == a[1] * b[2] < b[1] * a[2]
 RLe(a, b) == a[1] * b[2] <= b[1] * a[2]
